@@ -17,7 +17,7 @@ REQUIRED_THEOREMS = [
     "Acn.C03.ideal_bounds", "Acn.C03.stepwise_bounds", "Acn.C03.ideal_stepwise_reject",
     "Acn.C03.constructor_guard", "Acn.C03.continuous_bounds", "Acn.C03.continuous_bounds_noise",
     "Acn.C03.charge_rejects_and_returns", "Acn.C03.charge_bounds_all", "Acn.C03.bounds_along_history",
-    "Acn.C03.states_along_history", "Acn.C03.ev_rate_le_pilot",
+    "Acn.C03.states_along_history", "Acn.C03.ev_rate_le_pilot", "Acn.C03.noise_clamp_needed",
 ]
 BUDGET = {"quick": 3000, "thorough": 60000, "search": 30000}
 TRUSTED = [
